@@ -71,7 +71,7 @@ def run_history(job):
     rec.update(develop=develop, jobs=jobs, edits=edits)
     base = os.path.join(job["tmp"], "h-" + "".join(c if c.isalnum() else "_" for c in job["key"]))
     shutil.rmtree(base, ignore_errors=True)
-    simA = bs.Sim(os.path.join(base, "a"), job["repo"], job["deadline"] + 15)
+    simA = bs.Sim(os.path.join(base, "a"), job["repo"], job["deadline"] + 5)
     rec["root"] = simA.root
     known = set()
     try:
@@ -106,7 +106,7 @@ def run_history(job):
             proj, argv, res, obs = last
             final = {"proj": proj, "argv": [a for a in argv if a != "-f"]}
             # from-scratch build of the final project state in an empty copy
-            simB = bs.Sim(os.path.join(base, "b"), job["repo"], job["deadline"] + 15)
+            simB = bs.Sim(os.path.join(base, "b"), job["repo"], job["deadline"] + 5)
             bs.render(proj, simB.root)
             resB = simB.invoke(develop, final["argv"])
             final["rcA"], final["rcB"] = res["rc"], resB["rc"]
@@ -233,8 +233,8 @@ def oblivious_expectation(job):
 
 
 def oracle(ctx):
-    n = ctx.scale(24, 600)
-    jobs = _jobs(ctx, n, ctx.scale(5, 12), "hist", share=0.55)
+    n = ctx.scale(48, 600)
+    jobs = _jobs(ctx, n, ctx.scale(6, 12), "hist", share=0.45)
     recs = ctx.parallel(run_history, jobs)
     _CACHE["recs"] = recs
     for rec in recs:
@@ -302,8 +302,8 @@ def correspond(ctx):
     if recs is None:
         recs = ctx.parallel(run_history, _jobs(ctx, ctx.scale(16, 300), ctx.scale(5, 12), "hist", share=0.8))
     # extra histories run strictly with -j1 and more flags for the model comparison
-    if ctx.time_left() > 25:
-        recs = recs + ctx.parallel(run_history, _jobs(ctx, ctx.scale(12, 300), ctx.scale(4, 10), "corr", share=0.75, j1=True))
+    if ctx.time_left() > 30:
+        recs = recs + ctx.parallel(run_history, _jobs(ctx, ctx.scale(16, 300), ctx.scale(4, 10), "corr", share=0.5, j1=True))
     allreqs = []
     spans = []
     for rec in recs:
